@@ -21,7 +21,7 @@ import time
 import traceback
 
 VERIF = '/verif'
-REPO = '/repo'
+REPO = os.environ.get('VERIF_REPO', '/repo')   # VERIF_REPO: self-tests against a mutated copy only
 COQ = os.path.join(VERIF, 'coq')
 WORK = os.path.join(VERIF, '.work')
 NPROC = 16
